@@ -616,8 +616,34 @@ def generate(rng, tier, index):
                                               "emit"]), "i": order[-1],
                             "level": 50, "msg": "plain"})
         history = history[:6]
+    # environment fault: the directory of one log file does not exist when
+    # the factory is first called (the factory fails part-way), is created
+    # later ('mkdir'), and the factory is called again
+    filehs = [(li, h) for li, lg in enumerate(loggers)
+              for h in lg["handlers"]
+              if h["path"] not in ("STDOUT", "STDERR")]
+    if filehs and rng.random() < 0.12:
+        li, h = rng.choice(filehs)
+        h["path"] = "missing/" + h["path"]
+        history = [{"op": "call", "i": li}]
+        if rng.random() < 0.3:
+            # (nothing that touches the files before the directory exists:
+            # a rollover in a missing directory fails for the environment's
+            # reason, which is not the component's business)
+            history.append({"op": "gc"})
+        history.append({"op": "mkdir"})
+        history.append({"op": rng.choice(["call", "call", "reopen"]),
+                        "i": li})
+        if rng.random() < 0.5:
+            history.append({"op": "call", "i": li})
+        if rng.random() < 0.5:
+            history.append({"op": rng.choice(["reopen-all", "close-all",
+                                              "emit"]), "i": li,
+                            "level": 50, "msg": "plain"})
     entry = "load"
-    if not any(lg["kind"] == "eventlog" for lg in loggers) \
+    if any(h["path"].startswith("missing/") for _li, h in filehs):
+        pass
+    elif not any(lg["kind"] == "eventlog" for lg in loggers) \
             and rng.random() < 0.15:
         entry = "configure-loggers"       # ZConfig.configureLoggers(text)
     return {"prop": ID, "tag": tag,
@@ -869,6 +895,22 @@ def _execute(plan, out, scratch, w, clock, recs):
     attached = {k: [] for k in keys}
     owner = {k: None for k in keys}
     preattached = set()
+    env = {"missing_dir_created": False}
+
+    def env_failure_expected(i):
+        """The factory of section i must fail now: one of its non-delayed
+        file handlers lives in the directory that does not exist yet."""
+        if env["missing_dir_created"]:
+            return False
+        for hp, hm in zip(plan["loggers"][i]["handlers"],
+                          models[i]["handlers"]):
+            if hp["path"].startswith("missing/") and not hm["delay"]:
+                return True
+        return False
+
+    def has_rec(h):
+        return any(r.ref() is h for r in recs)
+
     if len(set(keys)) < len(keys):
         probe("two-sections-one-logger")
 
@@ -921,6 +963,24 @@ def _execute(plan, out, scratch, w, clock, recs):
                 logger = f()
         except Exception as e:
             o = ops.failure(e)
+            if env_failure_expected(i) and o["cls"] == "FileNotFoundError":
+                # the environment's fault, not the component's; the handlers
+                # built before the failing one are on the logger already
+                probe("factory-failed-on-missing-directory")
+                out["fired"]["open-enoent-at-factory"] = out["fired"].get(
+                    "open-enoent-at-factory", 0) + 1
+                lgr = logging.getLogger(lg.get("name")) \
+                    if lg["kind"] == "logger" else logging.getLogger()
+                have = [b for (a, b) in attached[keys[i]] if a == i]
+                j = len(have)
+                for x in lgr.handlers:
+                    if isinstance(x, logging.NullHandler) or has_rec(x):
+                        continue
+                    recs.append(Rec(x, i, j, _describe(x)))
+                    attached[keys[i]].append((i, j))
+                    j += 1
+                x = lgr = None
+                return None
             unknown = any(hm["uses_unknown"] for hm in m["handlers"])
             fvs = [hm["format_verdict"] for hm in m["handlers"]]
             what = "raised"
@@ -947,10 +1007,11 @@ def _execute(plan, out, scratch, w, clock, recs):
                       "factory of %s returned %r" % (name, logger), step)
             return logger
         if first and i not in preattached:
-            attached[key].extend((i, j) for j in range(len(m["handlers"])))
+            have = [b for (a, b) in attached[key] if a == i]
+            attached[key].extend((i, j) for j in range(len(have),
+                                                       len(m["handlers"])))
             owner[key] = i
-        n_before = ([k for k, (a, _b) in enumerate(attached[key])
-                     if a == i] or [len(attached[key])])[0]
+        positions = [k for k, (a, _b) in enumerate(attached[key]) if a == i]
         om = models[owner[key]]
         olg = plan["loggers"][owner[key]]
         if logger.level != om["level"]:
@@ -979,9 +1040,8 @@ def _execute(plan, out, scratch, w, clock, recs):
                          "first" if first else "repeated"), step)
             return logger
         # the handlers this factory call added
-        hs = hs_all[n_before:n_before + len(m["handlers"])] if first else []
-        kinds = kinds_all[n_before:n_before + len(m["handlers"])] \
-            if first else []
+        hs = [hs_all[k] for k in positions] if first else []
+        kinds = [kinds_all[k] for k in positions] if first else []
         if not m["handlers"] and first and len(set(keys)) == len(keys):
             if [type(x) for x in logger.handlers] != [loghandler.NullHandler]:
                 violation("handlers", "placeholder",
@@ -989,7 +1049,8 @@ def _execute(plan, out, scratch, w, clock, recs):
                           % (name, logger.handlers), step)
         if first:
             for j, (x, hm) in enumerate(zip(hs, m["handlers"])):
-                recs.append(Rec(x, i, j, kinds[j]))
+                if not has_rec(x):
+                    recs.append(Rec(x, i, j, kinds[j]))
                 hp = lg["handlers"][j]
                 if x.level != hm["level"]:
                     violation("handler", "level",
@@ -1182,6 +1243,10 @@ def _execute(plan, out, scratch, w, clock, recs):
                               % ops.brief(ops.failure(e)), step)
                 del logger
                 probe("emit")
+        elif kind == "mkdir":
+            os.makedirs(os.path.join(scratch, "missing"), exist_ok=True)
+            env["missing_dir_created"] = True
+            out["fired"]["mkdir"] = out["fired"].get("mkdir", 0) + 1
         elif kind == "advance":
             clock.t += op["dt"]
             out["fired"]["clock-advance"] = out["fired"].get(
